@@ -929,6 +929,11 @@ impl<Q: QueueApi> State<Q> {
                 let other_longer = om.len() > self.m.len();
                 self.q.append(&mut o);
                 // other must be empty and well-formed afterwards
+                let os = o.snapshot();
+                if let Err(d) = os.tables() {
+                    std::mem::forget(o);
+                    return Err(mon.tables(format!("other queue after append: {}", d)));
+                }
                 if o.len() != 0 || !o.is_empty() || o.iter().next().is_some() {
                     return Err(mon.content(format!("append left {} elements in the other queue", o.len())));
                 }
@@ -936,10 +941,6 @@ impl<Q: QueueApi> State<Q> {
                     if o.peek(*e).is_some() {
                         return Err(mon.content("append: other queue still peeks an element".to_string()));
                     }
-                }
-                let os = o.snapshot();
-                if let Err(d) = os.tables() {
-                    return Err(mon.tables(format!("other queue after append: {}", d)));
                 }
                 for (id, e) in om.m {
                     match self.m.m.get(&id).copied() {
